@@ -56,6 +56,8 @@ def _branch_hit(ctx, fn, env, var_tests):
 def check(ctx, rep):
     from . import c07, _share
     _share.share(ctx, rep, c07, ('literal.',), 'a number literal re-enters with the type its digit count and sigil select')
+    from . import c03 as _c03
+    _share.share(ctx, rep, _c03, ('hexoct.',), 'an octal or hexadecimal literal is listed as the unsigned value that re-enters as the same token')
     tkm = ctx.mod(TK)
     kw_node = tkm.assigns.get('KEYWORDS')
     if not isinstance(kw_node, ast.Dict):
@@ -116,6 +118,42 @@ def check(ctx, rep):
            repr([norm(a) for a in acc]), ctx.where(tw))
     look = [n for n in own_nodes(tw) if isinstance(n, ast.Subscript) and norm(n.value) == 'self._keyword_to_token']
     rep.ob('case.lookup', '_tokenise_word looks the upper-cased word up in to_token', bool(look) and all(norm(l.slice) == 'word' for l in look), '', ctx.where(tw))
+    # the number readers are case-insensitive: a character that is compared with letters (E, D, H, O, L, Q) has been upper-cased
+    CS = 'pcbasic/basic/base/codestream.py'
+    n_cmp = 0
+    for meth in ('read_number', '_read_dec', '_read_hex', '_read_oct'):
+        fn = ctx.fn('%s:CodeStream.%s' % (CS, meth))
+        upper_locals = {}
+        for a in own_nodes(fn):
+            if isinstance(a, ast.Assign) and isinstance(a.targets[0], ast.Name):
+                upper_locals.setdefault(a.targets[0].id, []).append(norm(a.value).endswith('.upper()'))
+        for c in own_nodes(fn):
+            if not (isinstance(c, ast.Compare) and len(c.ops) == 1):
+                continue
+            sides = [c.left, c.comparators[0]]
+            for k, side in enumerate(sides):
+                v = ctx.fold(side)
+                vals = list(v) if isinstance(v, (tuple, list)) else [v]
+                if not vals or not all(isinstance(x, bytes) for x in vals):
+                    continue
+                letters = b''.join(vals)
+                if not any(65 <= ch <= 90 for ch in letters) or any(97 <= ch <= 122 for ch in letters):
+                    continue   # no letters, or both cases listed
+                other = sides[1 - k]
+                n_cmp += 1
+                base = other.value if isinstance(other, ast.Subscript) else other
+                if isinstance(base, ast.Name):
+                    ok = bool(upper_locals.get(base.id)) and all(upper_locals[base.id])
+                    if not ok:
+                        # an accumulator fed only from upper-cased locals (and constants)
+                        feeds = [a.value for a in own_nodes(fn) if isinstance(a, ast.AugAssign) and norm(a.target) == base.id]
+                        ok = bool(feeds) and all(isinstance(f, ast.Constant) or (isinstance(f, ast.Name) and upper_locals.get(f.id) and all(upper_locals[f.id])) for f in feeds) \
+                            and all(not u or isinstance(u, bool) for u in upper_locals.get(base.id, []))
+                else:
+                    ok = norm(other).endswith('.upper()')
+                rep.ob('case.number-reader-upper-cases', 'CodeStream.%s: %s' % (meth, short(c, 50)), ok,
+                       'a character is compared with upper-case letters without being upper-cased: the lower-case spelling is read differently (1e5, &h10, `1 else`)', ctx.where(c))
+    rep.floor('case.number-reader-upper-cases', n_cmp, 4, 'comparisons with letters in the number readers')
     # payload sizes
     plus = ctx.const(TK, 'PLUS_BYTES')
     sizes = dict((c, ctx.fold(class_assigns(ctx.cls('%s:%s' % (N, c)))['size'])) for c in ('Integer', 'Single', 'Double'))
@@ -258,6 +296,8 @@ def variants(ctx):
            in_fn('Float._decimal_notation', lambda fn: mu.replace_expr(fn, mu.text_is("b'.' not in valstr or type_sign == b'#'"), "b'.' not in valstr")), expect='list.double-sigil-kept'),
         Va('two-keywords-same-token', 'break', TK, set_tok('LOCATE', "b'\\xc9'"), expect='bijection'),
         Va('two-tokens-same-keyword', 'break', TK, set_tok('KW_LOF', "b'LOC'"), expect='bijection.no-duplicate-keyword'),
+        Va('else-after-number-case-sensitive', 'break', 'pcbasic/basic/base/codestream.py',
+           in_fn('CodeStream._read_dec', lambda fn: mu.replace_expr(fn, mu.text_is('self.peek().upper()'), 'self.peek()')), expect='case.number-reader-upper-cases'),
         Va('lowercase-keyword', 'break', TK, set_tok('KW_CINT', "b'Cint'"), expect='case.keywords-upper'),
         Va('token-in-ascii-range', 'break', TK, set_tok('BEEP', "b'\\x7c'"), expect='code.one-byte-high'),
         Va('token-is-two-byte-lead', 'break', TK, set_tok('THEN', "b'\\xfe'"), expect='code.prefix-free'),
